@@ -21,4 +21,5 @@ func init() {
 			Decode: DecodeRounds,
 		})
 	}
+	sim.Register(&sim.Engine{Prop: "C16", Gen: GenSched, Exec: ExecSched, Decode: DecodeTree, Sched: true, Concretize: concretize})
 }
